@@ -9,6 +9,48 @@ from .contracts import DROPPED, Contract, load_function
 from .engine import Engine, OutOfSubset
 
 
+def generate(c, registry):
+    """VC generation only: -> dict(function, hash, status, eng) ; obligations in eng.obls"""
+    t0 = time.time()
+    try:
+        fnode, h = load_function(c.path, c.qual)
+    except (LookupError, FileNotFoundError, SyntaxError) as e:
+        return dict(function=c.target, hash=None, status="missing", why=str(e), results=[], notes=[], seconds=0)
+    eng = Engine(c, registry, fnode, None)
+    try:
+        eng.run()
+    except OutOfSubset as e:
+        return dict(function=c.target, hash=h, status="out-of-subset", why=str(e), results=[], notes=eng.notes, seconds=time.time() - t0)
+    except RecursionError:
+        return dict(function=c.target, hash=h, status="out-of-subset", why="recursion limit in the engine", results=[], notes=eng.notes, seconds=time.time() - t0)
+    return dict(function=c.target, hash=h, status="ok", eng=eng, notes=eng.notes, paths=eng.npaths, seconds=time.time() - t0)
+
+
+def verify_many(contracts, registry, timeout_ms=10000):
+    """Generates the obligations of all contracts, then discharges them in one 16-process pool."""
+    from . import seqs
+
+    gens = [generate(c, registry) for c in contracts]
+    obls, axs, owner = [], [], []
+    for gi, g in enumerate(gens):
+        if g["status"] != "ok":
+            continue
+        ax = g["eng"].axioms + seqs.all_axioms()
+        for ob in g["eng"].obls:
+            obls.append(ob)
+            axs.append(ax)
+            owner.append(gi)
+    res = solve.discharge(axs, obls, timeout_ms) if obls else []
+    for g in gens:
+        if g["status"] == "ok":
+            g["results"] = []
+            g.pop("eng")
+    for gi, r in zip(owner, res):
+        r["function"] = gens[gi]["function"]
+        gens[gi]["results"].append(r)
+    return gens
+
+
 def verify_contract(c, registry, timeout_ms=10000, verbose=False):
     """-> dict(function, hash, status in ok|out-of-subset|missing, results=[...], notes=[...])"""
     t0 = time.time()
@@ -75,8 +117,9 @@ def run_contracts(ctx, contracts, registry, workloads=(), concrete_env=None, mon
     for c in contracts:
         if c.trusted or c.path is None:
             ctx.trust(f"assumed contract: {c.target} ({c.notes or 'library/external'})")
-            continue
-        out = verify_contract(c, registry, timeout)
+    todo = [c for c in contracts if not (c.trusted or c.path is None)]
+    outs = verify_many(todo, registry, timeout)
+    for c, out in zip(todo, outs):
         ctx.functions[c.target] = out.get("hash")
         if out["status"] in ("missing", "out-of-subset"):
             ctx.notes.append(f"PROOF-LOST {c.target}: {out['why']} (bounded stand-in decides)")
